@@ -36,11 +36,14 @@ def namedef(x, always_rename=False, display=None):
 
 
 def render(ad, refcase="decl", always_rename=False, libref_same="present", bus=None, comments=False,
-           design_case="decl", rich=False):
+           design_case="decl", rich=False, split_nets=False):
     """bus: {(cell, net): (permutation of bit positions, subset kept)} rendering of bus nets.
     rich: the same design with the other constructs of the supported subset around it: a library of leaf
     cells declared (external ...), status blocks in library / cell / view, properties on cells, views, ports
-    and nets, integer instance properties spelled (number N), string ones carrying an (owner ...)."""
+    and nets, integer instance properties spelled (number N), string ones carrying an (owner ...).
+    split_nets: a scalar net with several endpoints is declared twice - the first endpoints under its identifier,
+    the others, after all other nets of the cell, under the same identifier in the other letter case (identifiers
+    compare ignoring case: it is one net)."""
     bus = bus or {}
     o = []
     w = o.append
@@ -92,7 +95,7 @@ def render(ad, refcase="decl", always_rename=False, libref_same="present", bus=N
                 iid = {}
                 pmeta = {}
                 for x in d.get("insts", ()):
-                    iid[x["name"]] = idof(x)
+                    iid.setdefault(x["name"], idof(x))   # (a later instance repeating the name is reached by nothing)
                     rl, rc = ids[tuple(x["ref"])]
                     lr = " (libraryRef %s)" % cased(rl, refcase)
                     if x["ref"][0] == lib["name"] and libref_same == "omitted":
@@ -126,11 +129,18 @@ def render(ad, refcase="decl", always_rename=False, libref_same="present", bus=N
                     return "(portRef %s%s)" % (body, " (instanceRef %s)" % inst if inst else "")
 
                 netp = ' (property NETP (string "on the net")) (comment "net comment")' if rich else ""
+                late_nets = []
                 for net in d.get("nets", ()):
                     lo = net.get("lower", 0)
                     isbus = net.get("array", len(net["bits"]) > 1)
                     if not isbus:
-                        w("     (net %s (joined %s)%s)" % (namedef(net, always_rename), " ".join(portref(e) for e in net["bits"][0]), netp))
+                        eps = net["bits"][0]
+                        if split_nets and len(eps) >= 2:
+                            h = (len(eps) + 1) // 2
+                            w("     (net %s (joined %s)%s)" % (namedef(net, always_rename), " ".join(portref(e) for e in eps[:h]), netp))
+                            late_nets.append("     (net %s (joined %s))" % (idof(net).swapcase(), " ".join(portref(e) for e in eps[h:])))
+                            continue
+                        w("     (net %s (joined %s)%s)" % (namedef(net, always_rename), " ".join(portref(e) for e in eps), netp))
                         continue
                     perm, keep = bus.get((d["name"], net["name"]), (tuple(range(len(net["bits"]))), tuple(range(len(net["bits"])))))
                     for k in perm:
@@ -138,6 +148,7 @@ def render(ad, refcase="decl", always_rename=False, libref_same="present", bus=N
                             continue
                         nid = "%s_%d_" % (idof(net), lo + k)
                         w('     (net (rename %s "%s[%d]") (joined %s)%s)' % (nid, net["name"], lo + k, " ".join(portref(e) for e in net["bits"][k]), netp))
+                o.extend(late_nets)
                 w("    )")
             if rich:
                 w('    (property VIEWP (boolean (true)))')
